@@ -60,7 +60,8 @@ Verdict eval_c03(const Scene &s) {
                     if (dmin <= 2 * buf + 1e-9) close = true;
                 }
                 v.fail(fmt("connector %zu %s: %s; route %s", i, which ? "route()" : "displayRoute()", bad.c_str(), ptsStr(r).c_str()),
-                       (close && c.type == 1) ? "F22-polyline-invalid-route-among-close-shapes" : "invalid-route");
+                       bad.find("[through two of its vertices]") != std::string::npos ? "F26-sight-line-through-two-vertices" :
+                       ((close && c.type == 1) ? "F22-polyline-invalid-route-among-close-shapes" : "invalid-route"));
             }
         }
         if (R.disp[i].size() > 2) v.cls("route-bends");
